@@ -105,7 +105,18 @@ pub fn gen_line(t: &mut Tape, internal: bool) -> Line {
             Line { kind: Kind::KgUse, text: format!(".kg use {n}"), target: Some(n.to_string()) }
         }
         16 => {
-            let n = if internal && t.chance(8, 16) { "_internal".to_string() } else { format!("new{}", t.below(3)) };
+            // new names, but also creates that are refused (existing graph, invalid name): a refused create leaves
+            // the executor on the graph it was on
+            let n = if internal && t.chance(8, 16) {
+                "_internal".to_string()
+            } else {
+                match t.below(6) {
+                    0..=2 => format!("new{}", t.below(3)),
+                    3 => "k2".to_string(),
+                    4 => "default".to_string(),
+                    _ => "bad..name".to_string(),
+                }
+            };
             Line { kind: Kind::KgCreate, text: format!(".kg create {n}"), target: Some(n) }
         }
         17 => {
